@@ -14,6 +14,10 @@ def pos(r):
     # special values (exactly 1, 2, 1/2, powers of ten) now and then: fast paths for unit / identity arguments hide there
     return r.choice([1.0, 1.0, 2.0, 0.5, 10.0, 1e-3]) if r.chance(0.15) else r.logu(1e-3, 1e3)
 
+def zpos(r):
+    # zero is inside the domain of times, positions and charges (not of divisors: distances, intervals, velocities here)
+    return 0.0 if r.chance(0.12) else pos(r)
+
 def generate(rng, tier):
     n = 200 if tier == 'quick' else 5000
     cases = []
@@ -34,11 +38,12 @@ def generate(rng, tier):
         preds.append(('bit_equal', [P.add('TView', g, a), P.add('GRotate', g, a)]))
         preds.append(('bit_equal', [P.add('TCompose', g, h), P.add('GMul', 0, g, h)]))
         # waves
-        t, x, vel = [P.add('GNewAngle', P.f(pos(r)), canon_angle(P, r, False)) for _ in range(3)]
+        t, x = [P.add('GNewAngle', P.f(zpos(r)), canon_angle(P, r, r.chance(0.25))) for _ in range(2)]
+        vel = P.add('GNewAngle', P.f(pos(r)), canon_angle(P, r, r.chance(0.25)))
         ph = P.add('GSub', 0, x, P.add('GMul', 0, vel, t))
         pr = P.add('TPropagate', g, t, x, vel)
         preds += [('mag_bits_equal', [g, pr]), ('angle_part_equal', [pr, P.add('AAdd', 0, P.add('GAngle', g), P.add('GAngle', ph))])]
-        k, w = [P.add('GNewAngle', P.f(pos(r)), canon_angle(P, r, False)) for _ in range(2)]
+        k, w = [P.add('GNewAngle', P.f(pos(r)), canon_angle(P, r, r.chance(0.25))) for _ in range(2)]
         ph2 = P.add('GSub', 0, P.add('GMul', 0, k, x), P.add('GMul', 0, w, t))
         dp = P.add('TDisperse', x, t, k, w)
         preds += [('mag_is_one', [dp]), ('angle_part_equal', [dp, P.add('GAngle', ph2)])]
@@ -55,8 +60,8 @@ def generate(rng, tier):
         lr, er = r.uniform(0.001, 1.0), r.uniform(-2, 2)
         preds.append(('perceptron_ref', [g, ['#', fb.bits(lr)], ['#', fb.bits(er)], h, P.add('TPerceptron', g, P.f(lr), P.f(er), h)]))
         # em
-        ch = P.add('GNewAngle', P.f(pos(r)), P.add('ANewBlade', P.u(r.choice([0, 2, 4, 6, 10, 1000, 1002])), P.f(0.0), P.f(1.0)) if r.chance(0.7) else canon_angle(P, r, False))
-        dist = P.add('GNewAngle', P.f(pos(r)), canon_angle(P, r, False))
+        ch = P.add('GNewAngle', P.f(zpos(r)), P.add('ANewBlade', P.u(r.choice([0, 2, 4, 6, 10, 1000, 1002, 2**31 + 2, 2**32 + 2])), P.f(0.0), P.f(1.0)) if r.chance(0.7) else canon_angle(P, r, r.chance(0.25)))
+        dist = P.add('GNewAngle', P.f(pos(r)), canon_angle(P, r, r.chance(0.25)))
         pw = P.add('GScalar', P.f(r.choice([1.0, 2.0, 3.0, 0.5, r.uniform(0.5, 4)])))
         kc = P.add('GScalar', P.f(pos(r)))
         preds.append(('inverse_field_ref', [ch, dist, pw, a, kc, P.add('TInvField', ch, dist, pw, a, kc)]))
